@@ -277,7 +277,11 @@ class Ev:
             return "VREAD %s @%s" % (fmt(self.a), self.loc)
         if self.kind == "RET":
             return "RET %s" % fmt(self.a)
-        return "%s %s" % (self.kind, self.a)
+        if self.kind == "DECL":
+            return "DECL %s%s @%s" % (self.b, (" = " + fmt(self.c)) if self.c is not None else "", self.loc)
+        if self.kind in ("CTOR", "COPY", "DTOR", "UNLOCK"):
+            return "%s %s %s" % (self.kind, fmt(self.a), fmt(self.b) if isinstance(self.b, tuple) else (self.b or ""))
+        return "%s %s" % (self.kind, self.a if self.a is not None else "")
 
 
 IDENTITY_FUNCS = {"std::move", "std::forward", "std::as_const", "std::launder"}
@@ -287,8 +291,9 @@ ABORT_FUNCS = {"abort", "std::abort", "exit", "std::exit", "std::terminate", "__
 
 
 class Engine:
-    def __init__(self, db, inline_filter=None, max_depth=MAX_DEPTH, max_paths=MAX_PATHS, no_inline=()):
+    def __init__(self, db, inline_filter=None, max_depth=MAX_DEPTH, max_paths=MAX_PATHS, no_inline=(), opaque_backend=True):
         self.db = db
+        self.opaque_backend = opaque_backend
         self.uid = itertools.count(1)
         self.max_depth = max_depth
         self.max_paths = max_paths
@@ -411,7 +416,7 @@ class Engine:
             return [(st, ("void",))]
         k = e["k"]
         t = e.get("t") or {}
-        if "cv" in e and k not in ("call", "ctor", "bin", "un", "cond") :
+        if "cv" in e and k != "ctor":
             return [(st, C(e["cv"]))]
         if k in ("icast", "cast"):
             return self.ev_cast(st, fr, e)
@@ -752,10 +757,11 @@ class Engine:
             return ("or", a, b)
         if is_const(l) and is_const(r):
             try:
-                if op == "/" and r[1]:
-                    return C(int(l[1] / r[1]))
-                if op == "%" and r[1]:
-                    return C(l[1] - int(l[1] / r[1]) * r[1])
+                if op in ("/", "%") and r[1]:
+                    qq = abs(l[1]) // abs(r[1])
+                    if (l[1] < 0) != (r[1] < 0):
+                        qq = -qq
+                    return C(qq) if op == "/" else C(l[1] - qq * r[1])
                 if op == "&":
                     return C(l[1] & r[1])
                 if op == "|":
@@ -829,6 +835,8 @@ class Engine:
         if f["dep"]:
             return None
         if f["n"] in self.no_inline or f["sn"] in self.no_inline:
+            return None
+        if self.opaque_backend and f["sn"].startswith("impl_"):
             return None
         if self.inline_filter and not self.inline_filter(f):
             return None
@@ -1265,6 +1273,9 @@ class Engine:
                     nxt.append(q)
                     continue
                 d = self.find_dtor(rid)
+                if d is None:
+                    nxt.append(q)
+                    continue
                 self.emit(q, "DTOR", obj, rn)
                 for q2, _ in self.inline(q, d, self.addr(obj), [], [], "scope-exit"):
                     nxt.append(q2)
